@@ -143,6 +143,7 @@ def run(ctx):
                 "path is a script; a seeded sample spread over the distinct orderings of calls and releases is replayed on a real loopback server "
                 "whose goroutines are parked at the verif schedule points and released in script order; probes and final observations are "
                 "judged by TraceServer.tla. distinct = distinct call/release orderings in the model's script set",
+        "idle_connections_probed": nidle,
         "samples": samples or [{"note": "replay"}], "exhaustive": False, "model_scripts": len(scripts) + len(tls_scripts), "replayed": len(scs),
         "infeasible_scripts": infeasible,
     }, assumptions=["'no server goroutine remains' is judged after the script released every gate and the server settled (bounded wait), not at "
